@@ -49,7 +49,7 @@ pub(crate) mod kani_verif {
     fn c07_chain_n16_to15() {
         check_chain::<16>(15, 15);
     }
-    // @h props=C07,C08,C02,C01 tier=thorough kind=proved cfg=w8 timeout=3000 funcs=HashChain::do_hash_chain;HashChain::do_actual_hash_chain contract="same, n=32"
+    // @h props=C07,C08,C02,C01 tier=extended kind=proved cfg=w8 timeout=3000 funcs=HashChain::do_hash_chain;HashChain::do_actual_hash_chain contract="same, n=32"
     #[kani::proof]
     #[kani::stub(<[u8; 32] as tinyvec::Array>::default, fast_default)]
     #[kani::unwind(36)]
